@@ -258,6 +258,7 @@ class FuncInfo:
         self.kind = None          # "static" / "class" for methods without a receiver
         self.store = False        # works on set objects: takes and returns the store of sets
         self.inouts = []          # list parameters it mutates: their new values are returned as well
+        self.pointer_params = set()   # builder mode: parameters used as parent pointers only
         self.export = False       # returned to the outside: set references in the result are replaced by the sets
         self.group = []
         self.has_while = False
@@ -302,14 +303,15 @@ def parse_ann(a, ctx):
 
 
 class Env:
-    def __init__(self, vars_=None, narrow=None, loop_k=None, leaked=None):
+    def __init__(self, vars_=None, narrow=None, loop_k=None, leaked=None, escaped=None):
         self.vars = dict(vars_ or {})        # name -> (code, type)
         self.narrow = dict(narrow or {})     # unparse(expr) -> (code, type)
         self.loop_k = loop_k                 # continuation of `continue` / end of a loop body
         self.leaked = set(leaked or ())      # names first bound inside a loop that has ended
+        self.escaped = set(escaped or ())    # builder mode: objects stored / passed on / returned on this path
 
     def copy(self):
-        return Env(self.vars, self.narrow, self.loop_k, self.leaked)
+        return Env(self.vars, self.narrow, self.loop_k, self.leaked, self.escaped)
 
     def bind(self, name, code, ty):
         e = self.copy()
@@ -332,6 +334,9 @@ class Translator:
         self.enums = {}
         self.module_consts = {}
         self.ifexp_as_str = False
+        self.pointer_use = False
+        self.escaped = set()
+        self.loop_mutations = []
         self.maybe_vars = {}
         self.written = None
         self.join_ifs = False
@@ -474,6 +479,9 @@ class Translator:
     def e_Name(self, e, env):
         if e.id in env.vars:
             code, ty = env.vars[e.id]
+            if PURE[0] and not self.pointer_use and (ty in (PFEATURE, PRELATION, ATTRIBUTE) or (
+                    ty[0] in ("opt", "maybe", "list") and ty[1] in (PFEATURE, PRELATION, ATTRIBUTE))):
+                env.escaped.add(e.id)        # the object is stored, passed on or returned: it may not be mutated afterwards
             if ty[0] == "maybe":
                 # a variable that is first bound inside a loop and read after it: bound or not is part of the state
                 self.cur.intrinsic_eff = True
@@ -811,6 +819,22 @@ class Translator:
             fail(e, "chained comparison with effects")
         return Val("(" + " && ".join(p.code for p in parts) + ")", BOOL)
 
+    def pointer(self, e, env):
+        """an expression used only as a parent pointer (builder mode): evaluated for its effects, not a value use"""
+        old, self.pointer_use = self.pointer_use, True
+        try:
+            return self.tr(e, env)
+        finally:
+            self.pointer_use = old
+
+    def mutating(self, name, ctx, env):
+        """builder mode: `name` is about to be changed in place — sound as a rebinding only while no other reference exists"""
+        if PURE[0]:
+            if name in env.escaped:
+                fail(ctx, f"{name} is changed after it was stored, passed on or returned (aliasing is not representable)")
+            for frame in self.loop_mutations:
+                frame.add(name)
+
     def truthy(self, v, ctx):
         if v.ty == BOOL:
             return v
@@ -853,7 +877,7 @@ class Translator:
             if x.ty == NONE:
                 return none_fn(env)
             if x.ty == ANY:
-                a, b = some_fn(env), none_fn(env)
+                a, b = some_fn(env.copy()), none_fn(env.copy())
                 return self.merge_branches(x, lambda c: (f"match {c} with VNone => ", " | _ => ", " end"), b, a, ctx, stmt)
             if x.ty[0] != "opt":
                 return some_fn(env)         # annotated as never None
@@ -861,10 +885,10 @@ class Translator:
             en = env.copy()
             if self.stable(cond.left):
                 en.narrow[ast.unparse(cond.left)] = (v, x.ty[1])
-            a, b = some_fn(en), none_fn(env)
+            a, b = some_fn(en), none_fn(env.copy())
             return self.merge_branches(x, lambda c: (f"match {c} with Some {v} => ", " | None => ", " end"), a, b, ctx, stmt)
         c = self.truthy(self.tr(cond, env), cond)
-        a, b = then_fn(env), else_fn(env)
+        a, b = then_fn(env.copy()), else_fn(env.copy())
         if not stmt and not c.eff and not a.eff and not b.eff and a.ty == BOOL and b.ty == BOOL:
             if b.code == "false":
                 return Val(f"({c.code} && {a.code})", BOOL)
@@ -1026,7 +1050,9 @@ class Translator:
                 return self.call_func(f0, [self.tr(a, env) for a in e.args], e)
             f = self.lookup(k)
             if f is not None:
-                return self.call_func(f, [recv] + [self.tr(a, env) for a in e.args], e)
+                return self.call_func(f, [recv] + [
+                    self.pointer(a, env) if i + 1 < len(f.params) and f.params[i + 1][0] in f.pointer_params
+                    else self.tr(a, env) for i, a in enumerate(e.args)], e)
             if k in EXT_METHODS and not e.args:
                 tmpl, ty = EXT_METHODS[k][:2]
                 eff = len(EXT_METHODS[k]) > 2
@@ -1095,7 +1121,8 @@ class Translator:
         args = e.args
         f = self.lookup((None, name))
         if f is not None:
-            return self.call_func(f, [self.tr(a, env) for a in args], e)
+            return self.call_func(f, [self.pointer(a, env) if i < len(f.params) and f.params[i][0] in f.pointer_params
+                                      else self.tr(a, env) for i, a in enumerate(args)], e)
         if name in EXT_FUNCS and len(args) == len(EXT_FUNCS[name][0]):
             ptys, tmpl, rty = EXT_FUNCS[name]
             vs = [self.coerce(self.tr(a, env), t, e) for a, t in zip(args, ptys)]
@@ -1118,7 +1145,7 @@ class Translator:
                 if not is_none("relations") or "feature_type" in given or "feature_cardinality" in given or "name" not in given:
                     fail(e, "Feature(...) with other than name / parent / is_abstract")
                 if "parent" in given:
-                    self.tr(given["parent"], env)          # evaluated, not represented (no parent pointers in a tree value)
+                    self.pointer(given["parent"], env)     # evaluated, not represented (no parent pointers in a tree value)
                 nm = self.coerce(self.tr(given["name"], env), STR, e)
                 ab = self.coerce(self.tr(given["is_abstract"], env), ANY, e) if "is_abstract" in given else Val("(VBool false)", ANY)
                 return self.lift([nm, ab], lambda c: Val(
@@ -1127,7 +1154,7 @@ class Translator:
             if name == "Relation":
                 if set(given) != set(order):
                     fail(e, "Relation(...) needs its four arguments")
-                self.tr(given["parent"], env)
+                self.pointer(given["parent"], env)
                 ch = self.coerce(self.tr(given["children"], env), List(PFEATURE), e)
                 a = self.coerce(self.tr(given["card_min"], env), INT, e)
                 b = self.coerce(self.tr(given["card_max"], env), INT, e)
@@ -1451,7 +1478,13 @@ class Translator:
             fail(ctx, "call of a store function with other than its positional parameters")
         args, rebind = [], []
         for a, (pn, pt, pd) in zip(call.args, f.params):
-            v = self.coerce(self.tr(a, env), pt, ctx)
+            if pn in f.inouts and isinstance(a, ast.Name) and a.id in env.vars:
+                self.mutating(a.id, ctx, env)
+                v = Val(env.vars[a.id][0], env.vars[a.id][1])
+            elif pn in f.pointer_params:
+                v = self.coerce(self.pointer(a, env), pt, ctx)
+            else:
+                v = self.coerce(self.tr(a, env), pt, ctx)
             if v.eff:
                 fail(ctx, "effectful argument of a store function")
             if pn in f.inouts:
@@ -1498,12 +1531,13 @@ class Translator:
             recv_name, meth = v.func.value.id, v.func.attr
             rty = env.vars[recv_name][1]
             if rty == PFEATURE and meth in ("add_relation", "add_attribute"):
+                self.mutating(recv_name, s, env)
                 want = PRELATION if meth == "add_relation" else ATTRIBUTE
                 a = self.coerce(self.tr(v.args[0], env), want, s)
                 new = self.lift([a], lambda c: Val(f"(py_{meth} {env.vars[recv_name][0]} {c[0]})", PFEATURE))
                 return self.assign(recv_name, new, rest, env, k, s)
             if rty == ATTRIBUTE and meth == "set_parent":
-                self.tr(v.args[0], env)       # a parent pointer: not represented in a tree value
+                self.pointer(v.args[0], env)  # a parent pointer: not represented in a tree value
                 return self.block(rest, env, k)
         if (self.cur.store and isinstance(v, ast.Call) and isinstance(v.func, ast.Attribute) and v.func.attr == "add"
                 and len(v.args) == 1 and isinstance(v.func.value, ast.Name) and v.func.value.id in env.vars
@@ -1829,6 +1863,11 @@ class Translator:
                 out.add(x.id)
         return {n for n in out if n not in env.vars}
 
+    def check_loop_aliasing(self, mutated, escaped, ctx):
+        both = sorted(mutated & escaped)
+        if PURE[0] and both:
+            fail(ctx, f"{', '.join(both)} is stored or passed on and also changed inside this loop (aliasing across iterations)")
+
     def s_For(self, s, rest, env, k):
         if s.orelse:
             fail(s, "for-else")
@@ -1842,10 +1881,15 @@ class Translator:
         en0, spat = self.state_pat(names, env)
         en1, xpat = self.bind_target(s.target, src.ty[1], en0)
 
+        body_escaped = set()
+
         def k_body(en):
+            body_escaped.update(en.escaped)
             return f"(Ok {self.state_tuple(names, en)})"
         en1.loop_k = k_body
+        self.loop_mutations.append(set())
         body = self.block(s.body, en1, k_body)
+        self.check_loop_aliasing(self.loop_mutations.pop(), body_escaped, s)
         en_after, apat = self.state_pat(names, env)
         en_after.loop_k = env.loop_k
         en_after.leaked |= self.leaks(s, names, env)
@@ -1863,7 +1907,10 @@ class Translator:
         names = self.loop_state(s.body, env, s)
         en0, spat = self.state_pat(names, env)
 
+        body_escaped = set()
+
         def k_body(en):
+            body_escaped.update(en.escaped)
             return f"(Ok (Some {self.state_tuple(names, en)}))"
         en0.loop_k = k_body
         saved = self.mode_eff
@@ -1873,7 +1920,9 @@ class Translator:
 
         def else_fn(en):
             return Val("(Ok None)", UNKNOWN, True)
+        self.loop_mutations.append(set())
         step = self.tr_if_code(s.test, en0, then_fn, else_fn, s)
+        self.check_loop_aliasing(self.loop_mutations.pop(), body_escaped, s)
         self.mode_eff = saved
         en_after, apat = self.state_pat(names, env)
         en_after.loop_k = env.loop_k
@@ -1951,6 +2000,8 @@ class Translator:
         self.written = None
         self.maybe_vars = {}
         for _ in range(8):
+            self.escaped = set()
+            self.loop_mutations = []
             self.seen_decl = set()
             env = Env()
             if f.store:
@@ -2150,6 +2201,26 @@ def collect(unit):
                         and isinstance(x.func.value, ast.Name) and pnames.get(x.func.value.id, ("?",))[0] == "list" \
                         and x.func.value.id not in f.inouts:
                     f.inouts.append(x.func.value.id)
+        if PURE[0]:
+            # parameters whose every use is the `parent` argument of a constructor (or of set_parent)
+            for pn, pt, _ in f.params:
+                if pt not in (PFEATURE, Opt(PFEATURE)):
+                    continue
+                loads = [x for x in ast.walk(f.node) if isinstance(x, ast.Name) and x.id == pn and isinstance(x.ctx, ast.Load)]
+                ok_ids = set()
+                for c in ast.walk(f.node):
+                    if isinstance(c, ast.Call) and isinstance(c.func, ast.Name) and c.func.id in ("Feature", "Relation"):
+                        for kw in c.keywords:
+                            if kw.arg == "parent" and isinstance(kw.value, ast.Name):
+                                ok_ids.add(id(kw.value))
+                        pos = {"Feature": 2, "Relation": 0}[c.func.id]
+                        if len(c.args) > pos and isinstance(c.args[pos], ast.Name):
+                            ok_ids.add(id(c.args[pos]))
+                    if isinstance(c, ast.Call) and isinstance(c.func, ast.Attribute) and c.func.attr == "set_parent" and c.args \
+                            and isinstance(c.args[0], ast.Name):
+                        ok_ids.add(id(c.args[0]))
+                if loads and all(id(x) in ok_ids for x in loads):
+                    f.pointer_params.add(pn)
         if PURE[0] and key[0] is None:
             pn_ty = {pn: pt for pn, pt, _ in f.params}
             for x in ast.walk(f.node):
